@@ -69,6 +69,11 @@ impl<'de> Multipart<'de> {
         /* including leading `--` */
         let boundary = r.read_until(CRLF);
 
+        /* a form without any part is just the close delimiter */
+        if boundary.ends_with(b"--") && (r.remaining().is_empty() || r.remaining() == CRLF) {
+            return Ok(Self(Vec::new()))
+        }
+
         let mut parts = Vec::new();
         while let Some(i) = r.consume_oneof(["\r\n", "--"]) {
             match i {
